@@ -88,25 +88,27 @@ Proof. apply guardsb_ok. vm_compute. reflexivity. Qed.
 
 (* outside the guard: a layer listed in two groups (accepted by append, F-C10-1) reports only its last lister, so a
    setter drops the caches above that one only: the attached group 2 keeps a stale box -- on the repaired variant *)
+Definition dl_s0 : state := run (empty_state_v (mkCfg true true true true true)) init4.
+Definition dl_h : list op := [Append 0 3; ObsBbox 2; SetLeft 3 6].
+Lemma dl_inv : Inv dl_s0. Proof. apply Invb_iff. vm_compute. reflexivity. Qed.
+Lemma dl_coh : CoherentA dl_s0. Proof. apply coherent_cohA; [exact dl_inv | apply coherentb_iff; vm_compute; reflexivity]. Qed.
+Lemma dl_notroot : ~ rootid dl_s0 3. Proof. apply (notin_memz 3 (map tid (roots dl_s0))). vm_compute. reflexivity. Qed.
+Lemma dl_att : att (run dl_s0 dl_h) 2.
+Proof.
+  apply (att_child _ 0 2).
+  - apply att_doc; [vm_compute; reflexivity | apply (proj1 (memz_In 0 (ids_l (roots (run dl_s0 dl_h))))); vm_compute; reflexivity].
+  - apply (In_edge_b 0 2 (edges_l (roots (run dl_s0 dl_h)))). vm_compute. reflexivity.
+Qed.
+Lemma dl_e1 : is_container (run dl_s0 dl_h) 2 = true. Proof. vm_compute. reflexivity. Qed.
+Lemma dl_e2 : ocache (objs (run dl_s0 dl_h) 2) = Some (3, 2, 5, 5). Proof. vm_compute. reflexivity. Qed.
+Lemma dl_e3 : fresh_bbox (run dl_s0 dl_h) 2 = Some (6, 2, 8, 5). Proof. vm_compute. reflexivity. Qed.
 Theorem double_listing_breaks_coherence_refuted :
   exists s h, Inv s /\ CoherentA s /\ ~ guards s h /\ ~ CoherentA (run s h).
 Proof.
-  exists (run (empty_state_v (mkCfg true true true true true)) init4), [Append 0 3; ObsBbox 2; SetLeft 3 6].
-  split; [apply Invb_iff; vm_compute; reflexivity|].
-  split; [apply coherent_cohA; [apply Invb_iff; vm_compute; reflexivity | apply coherentb_iff; vm_compute; reflexivity]|].
-  set (S0 := run (empty_state_v (mkCfg true true true true true)) init4).
-  set (S1 := run S0 [Append 0 3; ObsBbox 2; SetLeft 3 6]).
-  split.
-  - intros [[_ Hr] _]. unfold rootid in Hr. revert Hr. apply (notin_memz 3 (map tid (roots S0))). vm_compute. reflexivity.
+  exists dl_s0, dl_h. split; [exact dl_inv|]. split; [exact dl_coh|]. split.
+  - intros [[_ Hr] _]. exact (dl_notroot Hr).
   - intro C.
-    assert (A : att S1 2).
-    { apply (att_child _ 0 2).
-      - apply att_doc; [vm_compute; reflexivity | apply (proj1 (memz_In 0 (ids_l (roots S1)))); vm_compute; reflexivity].
-      - apply (In_edge_b 0 2 (edges_l (roots S1))). vm_compute. reflexivity. }
-    assert (E1 : is_container S1 2 = true) by (vm_compute; reflexivity).
-    assert (E2 : ocache (objs S1 2) = Some (3, 2, 5, 5)) by (vm_compute; reflexivity).
-    assert (E3 : fresh_bbox S1 2 = Some (6, 2, 8, 5)) by (vm_compute; reflexivity).
-    pose proof (C 2 (3, 2, 5, 5) A E1 E2) as E4. rewrite E3 in E4. discriminate.
+    pose proof (C 2 (3, 2, 5, 5) dl_att dl_e1 dl_e2) as E4. rewrite dl_e3 in E4. discriminate.
 Qed.
 Print Assumptions double_listing_breaks_coherence_refuted.
 
